@@ -327,7 +327,7 @@ class Effects:
             return all(self._scalar(a) for a in t[1])
         if k == "bin":
             return self._scalar(t[2]) and self._scalar(t[3])
-        if k == "call" and t[1][0] == "global" and t[1][1] in ("len", "int", "float", "numpy.sum", "numpy.max", "numpy.min", "numpy.sqrt", "max", "min", "abs", "numpy.abs"):
+        if k == "call" and t[1][0] == "global" and t[1][1] in ("len", "int", "float", "numpy.sum", "numpy.max", "numpy.min", "numpy.mean", "numpy.sqrt", "max", "min", "abs", "numpy.abs"):
             return True
         if k == "call" and t[1][0] == "attr" and t[1][2] in ("sum", "max", "min", "mean"):
             return True
